@@ -99,6 +99,10 @@ inductive Outcome (σ : Type)
   | spin (s : σ)
 deriving Repr, DecidableEq
 
+def Outcome.isDone {σ : Type} : Outcome σ → Bool
+  | .done _ => true
+  | .spin _ => false
+
 /-! ### FlowProposal.populate -/
 
 /-- one point of a batch returned by `backward_pass`: its `log_q` and the `log_w` that
@@ -470,5 +474,22 @@ def attrDefined (defined : List (String × List String)) (cls attr : String) : B
 /-- (caller, class, attribute) triples whose attribute is defined nowhere in the class hierarchy -/
 def attrViolations (defined : List (String × List String)) (t : List AttrRead) : List (String × String × String) :=
   (t.filter fun r => !attrDefined defined r.cls r.attr).map (fun r => (r.caller, r.cls, r.attr))
+
+/-- a `raise` statement guarded by a condition that mentions option(s); `phase` is "upfront" (reachable from the
+constructors / before the live points are drawn) or "late" (reachable only once sampling has started) -/
+structure RaiseSite where
+  phase : String
+  site : String
+  exc : String
+  options : List String
+deriving Repr, DecidableEq
+
+/-- the options tested by some raise site that is reachable only after sampling has started -/
+def lateOptions (t : List RaiseSite) : List String :=
+  (t.filter (fun r => r.phase == "late")).flatMap (·.options)
+
+/-- the options tested by some raise site reachable before sampling starts -/
+def upfrontOptions (t : List RaiseSite) : List String :=
+  (t.filter (fun r => r.phase != "late")).flatMap (·.options)
 
 end NessaiVerif.Term
